@@ -463,6 +463,9 @@ def main_check(pid, tier, seed, write_evidence=True):
                         v = ["oracle raised %s: %s" % (type(e).__name__, e)]
                 if r.foreign:
                     m = list(m or []) + ["random source outside the recorded primitives: %s" % (r.foreign[:2],)]
+                if getattr(r, "corr_breaks", None):
+                    # a component without a per-record model counterpart reports that the real objects left the run model
+                    m = list(m or []) + list(r.corr_breaks)
                 if m is None:
                     m = []
                 elif not m:
